@@ -100,6 +100,8 @@ module Z :
 
   val eqb : z -> z -> bool
 
+  val abs : z -> z
+
   val to_nat : z -> nat
 
   val of_nat : nat -> z
@@ -115,7 +117,11 @@ module Z :
   val log2 : z -> z
  end
 
+val tl : 'a1 list -> 'a1 list
+
 val nth : nat -> 'a1 list -> 'a1 -> 'a1
+
+val rev : 'a1 list -> 'a1 list
 
 val concat : 'a1 list list -> 'a1 list
 
@@ -123,7 +129,13 @@ val map : ('a1 -> 'a2) -> 'a1 list -> 'a2 list
 
 val fold_left : ('a1 -> 'a2 -> 'a1) -> 'a2 list -> 'a1 -> 'a1
 
+val fold_right : ('a2 -> 'a1 -> 'a1) -> 'a1 -> 'a2 list -> 'a1
+
 val existsb : ('a1 -> bool) -> 'a1 list -> bool
+
+val forallb : ('a1 -> bool) -> 'a1 list -> bool
+
+val combine : 'a1 list -> 'a2 list -> ('a1 * 'a2) list
 
 val seq : nat -> nat -> nat list
 
@@ -309,3 +321,81 @@ val consume :
 
 val smatch :
   tok list -> mode -> z -> (leaf * z) list -> ((leaf * z) list * z) option
+
+type ttype =
+| TLeaf of leaf
+| TStruct of z * (ttype * z) list
+
+type frame = (ttype * z) list * z
+
+type stack = frame list
+
+val init_push : ttype -> stack -> stack res
+
+val s_init : ttype -> stack res
+
+val push_sub : bool -> ttype -> z -> stack -> stack
+
+val next_in :
+  bool -> bool -> (ttype * z) list -> z -> z -> stack -> stack option
+
+val s_advance : bool -> bool -> stack -> stack
+
+val s_cur : stack -> (leaf * z) option
+
+val walk_from : nat -> bool -> bool -> stack -> (leaf * z) list res
+
+val tnodes : ttype -> nat
+
+val walk : bool -> bool -> ttype -> (leaf * z) list res
+
+val t_size : ttype -> z
+
+val check_tree : fixes -> bool -> bool -> z list -> ttype -> z -> unit res
+
+val flatten : ttype -> z -> (leaf * z) list
+
+val flat_ti : ttype -> tinfo
+
+type cinfo =
+| CInfo of z * z * z * z list * z * (cinfo * z) list option
+
+val zlist_eqb : z list -> z list -> bool
+
+val arr_prefix_eqb : z list -> z list -> bool
+
+val is_none : 'a1 option -> bool
+
+val ticmp : bool -> cinfo -> cinfo -> bool
+
+type cleaf = (((z * z) * z) * z list) * z
+
+val cflat : cinfo -> z -> cleaf list
+
+val cleaf_compat : cleaf -> cleaf -> bool
+
+val forall2b : ('a1 -> 'a1 -> bool) -> 'a1 list -> 'a1 list -> bool
+
+val cinfo_compat : cinfo -> cinfo -> bool
+
+type axis =
+| AStrided
+| AContig
+| AFollow
+
+type cflag =
+| FNone
+| FC
+| FF
+
+val check_stride : z -> axis -> z -> z -> bool
+
+val vc_loop : z -> z -> (z * z) list -> bool
+
+val verify_contig : cflag -> z -> z list -> z list -> bool
+
+val check_axes : z -> axis list -> z list -> z list -> bool
+
+val prodz : z list -> z
+
+val validate_axes : axis list -> cflag -> z -> z list -> z list -> bool
